@@ -67,6 +67,8 @@ def _key(c, mode, v):
         path += "-queryinfo"
     if mode.startswith("sess-iter"):
         path += "-iter"
+    if mode.endswith("-t"):
+        path += "-readtimeout"
     kind = l["kind"].lower()
     if l["kind"] == "ERROR":
         kind += "-0x%04x" % l["b"]["code"]
@@ -123,6 +125,10 @@ def _modes(s, cid, quick):
                 # v1 has no skip-metadata flag on the wire: the server always sends the
                 # metadata, whatever the driver's (default) skip setting is
                 modes.append("sess-skip")
+    # the same responses delivered in two pieces with a temporary read timeout in between
+    for m in list(modes):
+        if m in ("sess-full", "sess-skip") and (cid % 4 == 1 or not quick):
+            modes.append(m + "-t")
     z = (cid % 3 == 0) if quick else True
     if s["kind"] == "ERROR" and s["code"] != 0x2500:
         # as the application gets it: the error value returned by Iter.Close() for a plain QUERY
@@ -236,6 +242,8 @@ def _drive(ctx, quick, raw, forced, nbfs, deep, ndeep_all, gdistinct):
     ctx.log("harness: %s" % summ)
     if summ["sess_errors"]:
         raise vf.Inconclusive("could not open a session to the scripted node: %s" % summ["sess_errors"])
+    if any(m.endswith("-t") for s in summ_of for m in s["modes"]) and not summ.get("faults_fired"):
+        raise vf.Inconclusive("the injected read timeouts never fired: the split-delivery modes were vacuous")
     if summ["views"] != expected_views:
         raise vf.Inconclusive("harness produced %d views, expected %d" % (summ["views"], expected_views))
 
